@@ -22,6 +22,36 @@ class Infra(Exception):
     """Infrastructure failure: exit 2, never a violation."""
 
 
+class LibraryPanic(Infra):
+    """The harness process died of a Go panic whose innermost frame is in the library under test (a panic on one of the
+    library's own goroutines, or in a call the harness did not recover): a property that says "never panics" may turn
+    this into a violation; for every other check it stays an infrastructure failure."""
+    def __init__(self, msg, stack):
+        Infra.__init__(self, msg)
+        self.stack = stack
+
+
+def library_panic(out):
+    """(message, stack) if `out` ends in a Go panic whose innermost non-runtime frame belongs to github.com/uber-go/tally."""
+    i = out.find("\npanic: ")
+    if i < 0 and not out.startswith("panic: ") and "fatal error: " not in out:
+        return None
+    if i < 0:
+        i = max(out.find("panic: "), out.find("fatal error: "))
+    tail = out[i:].strip()
+    m = re.search(r"\ngoroutine \d+ .*?:\n(.*?)(?:\n\n|$)", tail, re.S)
+    if not m:
+        return None
+    frames = [l for l in m.group(1).splitlines() if l and not l.startswith("\t")]
+    for f in frames:
+        if f.startswith("panic(") or f.startswith("runtime.") or f.startswith("sync.") or f.startswith("internal/"):
+            continue
+        if f.startswith("github.com/uber-go/tally/"):
+            return tail.splitlines()[0], tail[:4000]
+        return None
+    return None
+
+
 def goenv():
     e = dict(os.environ)
     e.update(GOFLAGS="-mod=mod", GOPROXY="off", GOSUMDB="off", GOTOOLCHAIN="local", CGO_ENABLED=e.get("CGO_ENABLED", "1"))
@@ -94,6 +124,9 @@ def run_vh(args, race=False, timeout=600, env_extra=None):
         e.update(env_extra)
     rc, out, dt = sh([exe] + [str(a) for a in args], env=e, timeout=timeout)
     if rc != 0:
+        lp = library_panic(out)
+        if lp:
+            raise LibraryPanic("harness %s died of a panic inside the library: %s" % (args[0], lp[0]), lp[1])
         raise Infra("harness %s failed rc=%d:\n%s" % (args[0], rc, out[-6000:]))
     return out
 
